@@ -384,11 +384,36 @@ def r09_12(ctx):
     f = P.own_method("Stage", "set_value")
     fns = [f] + list(__import__("rkverif.model", fromlist=["nested_functions"]).nested_functions(f).values())
     wt = [(g, c) for g in fns for c in walk_no_nested(g.node) if is_call_to(c, "set_value", "self._method")]
-    re = [(g, c) for g in fns for c in walk_no_nested(g.node) if is_call_to(c, "apply_initial", "self._method") or is_call_to(c, "set_initial", "self._method")]
+    re = [(g, c) for g in fns for c in walk_no_nested(g.node) if isinstance(c, ast.Call) and isinstance(c.func, ast.Attribute) and c.func.attr in ("apply_initial", "set_initial")
+          and isinstance(c.func.value, ast.Attribute) and c.func.value.attr == "_method"]
     ctx.check(len(wt) >= 1, "Stage.set_value writes the value through to a live transcription", detail="write-through", expected="self._method.set_value(...)", found=str(len(wt)), fi=f)
     ctx.check(bool(re), "Stage.set_value", detail="guesses that depend on the parameter (or on a parametric horizon) keep the numbers computed with the old value: the starting point differs from the same OCP written with the new value",
               expected="after the write-through: self._method.apply_initial(self._augmented, self.master._method, self._initial)", found="no re-application of the guess table", fi=f,
               sample={"write_through": [ast.unparse(c)[:80] for _, c in wt]})
+    # the re-application may be skipped only when no guess can depend on a parameter: every recorded guess is a number and the
+    # horizon is not symbolic.  A guard through a helper is simulated: it must answer True for an expression guess and for a
+    # symbolic T / t0.
+    if re:
+        from ..sim import Sim, fresh_obj
+        from ..layout import Sym, LayoutUnknown, freeze
+        sc = ctx.scope(f)
+        guards = [t for _, c in re for t, p in sc.path_guards(c)]
+        helpers = [x for t in guards for x in ast.walk(t) if isinstance(x, ast.Call) and isinstance(x.func, ast.Attribute) and P.resolve("Stage", x.func.attr) is not None
+                   and x.func.attr not in ("is_transcribed",)]
+        for h in helpers:
+            g = P.resolve("Stage", h.func.attr)
+            for label, ini, T in (("an expression guess", {freeze(Sym("x")): Sym("expr")}, 1.0), ("a symbolic horizon", {}, Sym("pT"))):
+                st = fresh_obj("self", _initial=ini, _T=T, _t0=0.0, _stages=[])
+                hooks = {"is_numeric": lambda s_, r, a, k, n: not isinstance(a[0], Sym), ".iter_stages": lambda s_, r, a, k, n: [r],
+                         "isinstance": lambda s_, r, a, k, n: isinstance(a[0], Sym) if ast.unparse(n.args[1]) == "MX" else NotImplemented}
+                try:
+                    sim = Sim(P, hooks=hooks)
+                    sim.self_class = "Stage"
+                    out = sim.call(g, [st], {})
+                except LayoutUnknown as e:
+                    raise AnalysisError("Stage.%s could not be simulated: %s" % (g.name, e))
+                ctx.check(out is True, "Stage.%s answers True for %s" % (g.name, label), detail="the guard of the re-application skips a case in which guesses depend on parameter values",
+                          expected="True", found=str(out), fi=g)
 
 
 @rule("R09.13", min_instances=2, desc="declaring a list of symbols is declaring each of them: the list form of register_variable / register_parameter forwards every declaration argument (grid, order, scale, include_last, domain, meta)")
